@@ -1,5 +1,5 @@
 """Declarations of the harness entry points added after the forth wrapper (kept apart so node.py stays small)."""
-from ctypes import POINTER, c_char_p, c_double, c_int, c_long, c_void_p
+from ctypes import POINTER, c_char_p, c_double, c_int, c_long, c_ulong, c_void_p
 
 
 def declare(node, sig):
@@ -13,6 +13,44 @@ def declare(node, sig):
     sig("aws_dump", c_long, c_long, c_char_p, c_long)
     sig("aws_text", c_long, c_long, c_int, c_char_p, c_long)
     sig("aws_length", c_long, c_long)
+    sig("aws_isscalar", c_int, c_long)
+    # arrays
+    sig("aws_buf", c_long, c_char_p, c_long)
+    sig("aws_buf_poke", c_int, c_long, c_long, c_int, c_long)
+    sig("aws_digest_bufs", c_ulong, POINTER(c_long))
+    sig("aws_index", c_long, c_long, c_int, c_long, c_long)
+    sig("aws_numpy", c_long, c_long, c_int, c_int, POINTER(c_long), POINTER(c_long), c_long, c_char_p)
+    sig("aws_empty", c_long)
+    sig("aws_regular", c_long, c_long, c_long, c_long)
+    sig("aws_listoffset", c_long, c_long, c_long)
+    sig("aws_list", c_long, c_long, c_long, c_long)
+    sig("aws_indexed", c_long, c_long, c_long, c_int)
+    sig("aws_unmasked", c_long, c_long)
+    sig("aws_bytemasked", c_long, c_long, c_long, c_int)
+    sig("aws_bitmasked", c_long, c_long, c_long, c_int, c_long, c_int)
+    sig("aws_union", c_long, c_long, c_long, POINTER(c_long), c_int)
+    sig("aws_record", c_long, POINTER(c_long), c_int, c_char_p, c_long)
+    sig("aws_setparam", c_int, c_long, c_char_p, c_char_p)
+    sig("aws_slice_new", c_long)
+    sig("aws_slice_add", c_int, c_long, c_int, POINTER(c_long), c_int, c_char_p, c_long)
+    sig("aws_getitem", c_long, c_long, c_long)
+    sig("aws_op", c_long, c_int, c_long, c_long, POINTER(c_long), c_int, c_char_p)
+    sig("aws_meta", c_long, c_long, c_int, c_char_p, c_char_p, c_long)
+    # lazy
+    sig("aws_cache_new", c_long)
+    sig("aws_cache_script", c_int, c_long, c_int, POINTER(c_int), c_int)
+    sig("aws_cache_broken", c_int, c_long, c_int)
+    sig("aws_cache_evict", c_long, c_long, c_char_p)
+    sig("aws_cache_log", c_long, c_long, c_char_p, c_long)
+    sig("aws_gen_new", c_long, c_long, c_int, c_int, c_long, c_long)
+    sig("aws_gen_script", c_int, c_long, POINTER(c_int), c_int)
+    sig("aws_gen_script_at", c_int, c_long, POINTER(c_int), c_int)
+    sig("aws_gen_calls", c_long, c_long)
+    sig("aws_gen_log", c_long, c_long, c_char_p, c_long)
+    sig("aws_virtual", c_long, c_long, c_long, c_char_p)
+    sig("aws_part", c_long, POINTER(c_long), POINTER(c_long), c_int)
+    sig("aws_part_op", c_long, c_long, c_int, POINTER(c_long), c_int)
+    sig("aws_part_text", c_long, c_long, c_int, c_char_p, c_long)
     # json
     sig("aws_fromjson", c_long, c_int, c_char_p, c_long, c_long, c_long, c_double, c_char_p, c_char_p, c_char_p,
         POINTER(c_long), c_int)
@@ -49,6 +87,12 @@ class Mixin:
     def text(self, h, what) -> bytes:
         return self.text_call(self.lib.aws_text, h, what)
 
+    def isscalar(self, h):
+        r = self.lib.aws_isscalar(h)
+        if r < 0:
+            self.raise_last()
+        return r == 1
+
     def length(self, h):
         r = self.lib.aws_length(h)
         if r < 0:
@@ -71,3 +115,136 @@ class Mixin:
     def tojson(self, h, via=0, buffersize=65536, maxdecimals=-1, nan=None, inf=None, minf=None, cre=None, cim=None):
         return self.text_call(self.lib.aws_tojson, h, via, buffersize, maxdecimals, self._opt(nan), self._opt(inf),
                               self._opt(minf), self._opt(cre), self._opt(cim))
+
+    # ---------------------------------------------------------------- arrays
+    def _h(self, h):
+        if h == 0:
+            self.raise_last()
+        return h
+
+    @staticmethod
+    def _longs(vals):
+        return (c_long * max(1, len(vals)))(*vals)
+
+    def buf(self, data: bytes):
+        return self._h(self.lib.aws_buf(data, len(data)))
+
+    def buf_poke(self, h, byteoff, width, value):
+        if not self.lib.aws_buf_poke(h, byteoff, width, value):
+            self.raise_last()
+
+    def digest_bufs(self):
+        alive = c_long(0)
+        d = self.lib.aws_digest_bufs(alive)
+        return d, alive.value
+
+    def index(self, buf, form, offset, length):
+        return self._h(self.lib.aws_index(buf, form, offset, length))
+
+    def numpy(self, buf, dtype, shape, strides, byteoffset, unit=""):
+        return self._h(self.lib.aws_numpy(buf, dtype, len(shape), self._longs(shape), self._longs(strides), byteoffset,
+                                          unit.encode()))
+
+    def empty(self):
+        return self._h(self.lib.aws_empty())
+
+    def regular(self, c, size, zeros_length):
+        return self._h(self.lib.aws_regular(c, size, zeros_length))
+
+    def listoffset(self, offsets, c):
+        return self._h(self.lib.aws_listoffset(offsets, c))
+
+    def list(self, starts, stops, c):
+        return self._h(self.lib.aws_list(starts, stops, c))
+
+    def indexed(self, index, c, option):
+        return self._h(self.lib.aws_indexed(index, c, 1 if option else 0))
+
+    def unmasked(self, c):
+        return self._h(self.lib.aws_unmasked(c))
+
+    def bytemasked(self, mask, c, valid_when):
+        return self._h(self.lib.aws_bytemasked(mask, c, 1 if valid_when else 0))
+
+    def bitmasked(self, mask, c, valid_when, length, lsb):
+        return self._h(self.lib.aws_bitmasked(mask, c, 1 if valid_when else 0, length, 1 if lsb else 0))
+
+    def union(self, tags, index, contents):
+        return self._h(self.lib.aws_union(tags, index, self._longs(contents), len(contents)))
+
+    def record(self, contents, keys, length):
+        names = None if keys is None else ",".join(keys).encode("utf-8")
+        return self._h(self.lib.aws_record(self._longs(contents), len(contents), names, length))
+
+    def setparam(self, h, key, json):
+        if not self.lib.aws_setparam(h, key.encode(), json.encode()):
+            self.raise_last()
+
+    def slice_new(self):
+        return self._h(self.lib.aws_slice_new())
+
+    def slice_add(self, s, kind, iargs=(), sarg="", arr=0):
+        if not self.lib.aws_slice_add(s, kind, self._longs(iargs), len(iargs), sarg.encode("utf-8"), arr):
+            self.raise_last()
+
+    def getitem(self, a, s):
+        return self._h(self.lib.aws_getitem(a, s))
+
+    def op(self, opcode, a, b=0, iargs=(), sarg=""):
+        return self._h(self.lib.aws_op(opcode, a, b, self._longs(iargs), len(iargs), sarg.encode("utf-8")))
+
+    def meta(self, a, what, sarg=""):
+        return self.text_call(self.lib.aws_meta, a, what, sarg.encode("utf-8"))
+
+    # ---------------------------------------------------------------- lazy
+    @staticmethod
+    def _ints(vals):
+        return (c_int * max(1, len(vals)))(*vals)
+
+    def cache_new(self):
+        return self._h(self.lib.aws_cache_new())
+
+    def cache_script(self, h, which, script):
+        if not self.lib.aws_cache_script(h, which, self._ints(script), len(script)):
+            self.raise_last()
+
+    def cache_broken(self, h, broken):
+        if not self.lib.aws_cache_broken(h, 1 if broken else 0):
+            self.raise_last()
+
+    def cache_evict(self, h, key=""):
+        n = self.lib.aws_cache_evict(h, key.encode())
+        if n < 0:
+            self.raise_last()
+        return n
+
+    def cache_log(self, h):
+        return self.text_call(self.lib.aws_cache_log, h).decode()
+
+    def gen_new(self, truth, declare_form, declare_length, wrong=0, longer=0):
+        return self._h(self.lib.aws_gen_new(truth, 1 if declare_form else 0, 1 if declare_length else 0, wrong, longer))
+
+    def gen_script_at(self, h, script):
+        if not self.lib.aws_gen_script_at(h, self._ints(script), len(script)):
+            self.raise_last()
+
+    def gen_calls(self, h):
+        n = self.lib.aws_gen_calls(h)
+        if n < 0:
+            self.raise_last()
+        return n
+
+    def gen_log(self, h):
+        return self.text_call(self.lib.aws_gen_log, h).decode()
+
+    def virtual(self, gen, cache, key):
+        return self._h(self.lib.aws_virtual(gen, cache, key.encode()))
+
+    def part(self, parts, stops):
+        return self._h(self.lib.aws_part(self._longs(parts), self._longs(stops), len(parts)))
+
+    def part_op(self, h, what, iargs=()):
+        return self._h(self.lib.aws_part_op(h, what, self._longs(iargs), len(iargs)))
+
+    def part_text(self, h, what):
+        return self.text_call(self.lib.aws_part_text, h, what)
